@@ -60,9 +60,15 @@ fn main() {
     ctx.rule("case = osu!standard grammar map (kinds circle / sliders / buzz / long slider / spinner; hit sounds {0,2,4,8,12}; gaps; stacked / far positions; timing presets with velocity points; format versions 14 and 7); per case: taiko, catch and mania conversion under no key mod and 1K-10K; oracle = times non-decreasing, durations >= 0, control points strictly ordered; taiko: one hit sound per object; mania: cs == key mod value else in [4,7], every x maps to a column < cs (floor(x*cs/512)), x finite and >= 0; catch: objects and sounds untouched; non-trivial = map has objects");
 
     // quick: N <= 3 over the 48-symbol alphabet; thorough: N <= 3 over the 240-symbol alphabet and N <= 4 over the 48-symbol one
-    let variants: Vec<(u32, Timing, &str)> = if ctx.quick() { vec![(14, Timing::T0, "v14"), (7, Timing::T1, "v7-velocity"), (14, Timing::T7, "v14-kiai-velocity-toggles")] } else { vec![(14, Timing::T0, "v14"), (7, Timing::T1, "v7-velocity"), (14, Timing::T7, "v14-kiai-velocity-toggles"), (14, Timing::T6, "v14-two-timing"), (5, Timing::T3, "v5-kiai")] };
+    use vh::gen::DiffPreset as DP;
+    // (the last two: other slider velocities and tick rates — how many objects a slider becomes depends on them)
+    let variants: Vec<(u32, Timing, &str, DP)> = if ctx.quick() {
+        vec![(14, Timing::T0, "v14", DP::D0), (7, Timing::T1, "v7-velocity", DP::D0), (14, Timing::T7, "v14-kiai-velocity-toggles", DP::D0), (14, Timing::T0, "v14-fast-sliders-8-ticks", DP::D2), (14, Timing::T0, "v14-2-ticks", DP::D3)]
+    } else {
+        vec![(14, Timing::T0, "v14", DP::D0), (7, Timing::T1, "v7-velocity", DP::D0), (14, Timing::T7, "v14-kiai-velocity-toggles", DP::D0), (14, Timing::T6, "v14-two-timing", DP::D0), (5, Timing::T3, "v5-kiai", DP::D0), (14, Timing::T0, "v14-fast-sliders-8-ticks", DP::D2), (14, Timing::T0, "v14-2-ticks", DP::D3), (14, Timing::T1, "v14-slow-sliders", DP::D1)]
+    };
     let shapes: Vec<(u32, bool)> = if ctx.quick() { vec![(3, false)] } else { vec![(3, true), (4, false)] };
-    for (version, timing, tag) in variants {
+    for (version, timing, tag, preset) in variants {
       for &(n_max, wide) in &shapes {
         let mut opts = UniOpts::new(n_max);
         opts.cfgs = vec![ModeCfg { src: 0, dst: 0 }];
@@ -72,6 +78,7 @@ fn main() {
         opts.poss = vec![PosK::Same, PosK::Far];
         opts.version = version;
         opts.timing = timing;
+        opts.diff = preset;
         opts.tag = format!("/{tag}");
         let kms = key_mods(!ctx.quick());
         for u in opts.build() {
